@@ -419,7 +419,7 @@ class Purity(object):
         for kind, rhs in self._assign_cache[id(f)].get(name, []):
             if rhs is None:
                 continue
-            for e in self._alias_exprs(rhs):
+            for e in self._alias_exprs(rhs, f):
                 root, chain, base = root_and_depth(e)
                 if root is None:
                     continue
@@ -436,26 +436,56 @@ class Purity(object):
                     out.extend(self.alias_roots(f, root, _seen))
         return out
 
-    def _alias_exprs(self, rhs):
+    def _alias_exprs(self, rhs, f=None):
         """sub-expressions of rhs whose object may be (part of) the value"""
         if isinstance(rhs, (ast.Name, ast.Attribute, ast.Subscript)):
             return [rhs]
         if isinstance(rhs, ast.IfExp):
-            return self._alias_exprs(rhs.body) + self._alias_exprs(rhs.orelse)
+            return self._alias_exprs(rhs.body, f) + self._alias_exprs(rhs.orelse, f)
         if isinstance(rhs, ast.BoolOp):
             out = []
             for v in rhs.values:
-                out += self._alias_exprs(v)
+                out += self._alias_exprs(v, f)
             return out
         if isinstance(rhs, ast.Call) and isinstance(rhs.func, ast.Attribute) and rhs.func.attr in ALIASING_METHODS:
-            return self._alias_exprs(rhs.func.value)
-        if isinstance(rhs, ast.Call):
+            return self._alias_exprs(rhs.func.value, f)
+        if isinstance(rhs, ast.Call) and f is not None:
+            # a repository function that may hand one of its parameters back: the result aliases the corresponding argument
             out = []
-            for a in rhs.args:
-                if isinstance(a, (ast.Name, ast.Attribute, ast.Subscript)):
-                    pass
+            tgt = self.rs.callee(f, rhs)
+            if isinstance(tgt, Func) and id(tgt) in self.ret_fresh and not self.ret_fresh[id(tgt)]:
+                ps = [p.name for p in tgt.params]
+                back = self.returned_params(tgt)
+                for i_, a in enumerate(rhs.args):
+                    if i_ < len(ps) and ps[i_] in back:
+                        out += self._alias_exprs(a, f)
+                for kw in rhs.keywords:
+                    if kw.arg in back:
+                        out += self._alias_exprs(kw.value, f)
             return out
         return []
+
+    def returned_params(self, g, _seen=None):
+        """names of the parameters of g that some return statement may hand back (directly or through local aliases)"""
+        _seen = _seen or set()
+        if id(g) in _seen:
+            return set()
+        _seen.add(id(g))
+        out = set()
+        ps = set(p.name for p in g.params)
+        for n in self._own_nodes(g):
+            if isinstance(n, ast.Return) and n.value is not None:
+                vals = n.value.elts if isinstance(n.value, ast.Tuple) else [n.value]
+                for v in vals:
+                    for e in self._alias_exprs(v, g):
+                        root, chain, base = root_and_depth(e)
+                        if root in ps and self.name_kind(g, root) == 'param':
+                            out.add(root)
+                        elif root is not None and self.name_kind(g, root) == 'local':
+                            for kind, nm in self.alias_roots(g, root):
+                                if kind == 'param':
+                                    out.add(nm)
+        return out
 
     # ------------------------------------------------------------------ direct sites
     def _scan_function(self, f):
